@@ -326,6 +326,12 @@ class Run(object):
       return self.add_stream(Stream(data[:h], iter(data[h:])), M(data), self.fam())
     if kind == "src":       # finite counting source
       return self.add_stream(Stream(Src(data)), M(data), self.fam())
+    if kind in ("rep", "rep2"):   # a *finite* constant stream: itertools.repeat(value, times)
+      import itertools
+      vals = list(data[:1]) * spec[2]
+      real = Stream(itertools.repeat(data[0], spec[2])) if kind == "rep" else lit.repeat(data[0], spec[2])
+      self.labels.add("finite repeat")
+      return self.add_stream(real, M(vals), self.fam())
     if kind == "per":       # periodic constructor (>= 2 scalars)
       self.labels.add("periodic")
       return self.add_stream(Stream(*data), M([], data), self.fam(), hard=True)
@@ -430,6 +436,8 @@ class Run(object):
     pool = self.pool
     if op == "thub_obj":
       obj, n = arg
+      if isinstance(obj, (tuple, list)) and len(obj) == 2 and obj[0] == "@named":
+        obj = NONITER[obj[1]]
       r = self.real(None, "thub(%r, %d)" % (obj, n), lambda: thub(obj, n))[1]
       if r is not obj:
         self.fail("thub(%r, %d) is %r, not the object itself" % (obj, n, r))
@@ -809,7 +817,8 @@ def _inits(tier, hubs=True):
   endless = st.tuples(st.just("endless"), st.lists(_item, min_size=1, max_size=4))
   teed = st.tuples(st.sampled_from(["tee:gen", "tee:iter"]), st.lists(_item, max_size=n),
                    st.integers(1, 3))
-  opts = [fin, fin, fin, rng, per, const, endless, teed]
+  rep = st.tuples(st.sampled_from(["rep", "rep2"]), st.lists(_scalar, min_size=1, max_size=1), st.integers(0, n))
+  opts = [fin, fin, fin, rng, per, const, endless, teed, rep]
   if hubs:
     opts.append(st.tuples(st.sampled_from(["hub:list", "hub:gen", "hub:stream"]),
                           st.lists(_item, max_size=n), st.integers(0, 3)))
@@ -847,8 +856,19 @@ _appendspec = st.one_of(
   st.tuples(st.just("pool"), _idx),
   st.just(("self",)),
 )
+# non-iterables that are easily mistaken for iterables are named (cases are plain data)
+class _NoIter(object):
+  __iter__ = None     # explicitly not iterable
+
+
+NONITER = {"class list": list, "class dict": dict, "class str": str, "class tuple": tuple,
+           "class Stream": Stream, "class itertools.count": __import__("itertools").count,
+           "builtin len": len, "object()": object(), "instance with __iter__ = None": _NoIter(),
+           "NotImplemented": NotImplemented, "Ellipsis": Ellipsis}
 _nonit = st.one_of(st.integers(-5, 5), st.none(), st.floats(allow_nan=False, width=16),
-                   st.booleans(), st.just(1j))
+                   st.booleans(), st.just(1j),
+                   st.sampled_from(sorted(NONITER)).map(lambda k: ("@named", k)),
+                   st.sampled_from(sorted(NONITER)).map(lambda k: ("@named", k)))
 
 _STEP = {
   "take": st.tuples(st.just("take"), _idx, st.tuples(_nspec, st.sampled_from(["list", "list", "tuple"]))),
